@@ -102,7 +102,7 @@ func TestC12Mutate(t *testing.T) {
 	seeds := mustSeeds(t)
 	byEnc := map[string][]seedEncoding{"protobuf": seedsOf(seeds, "protobuf"), "json": seedsOf(seeds, "json")}
 	perCase := 4000
-	meta := vrun.Meta{Property: "C12", Workload: "TestC12Mutate", Total: env.Pick(400, 8000),
+	meta := vrun.Meta{Property: "C12", Workload: "TestC12Mutate", Total: env.Pick(400, 3000),
 		Rule:        fmt.Sprintf("case i works on one encoding (even i protobuf, odd i JSON): starting from a pool holding the valid encodings of all message types it draws %d inputs, each by applying 1-6 (mostly 1-2) stacked random operations (bit/byte edits, deletions, insertions, duplications, truncation, interesting varints and integers, crossover with another pool member, chunk repetition; JSON also number/string/snippet replacement) to a pool member; an input that is accepted with a message shape (type, set fields, length classes) not seen before in the case joins the pool, as do the first 48 inputs rejected with a new class of error text (feedback on observable behaviour). Every input goes through the decode/round-trip oracle. Non-trivial: at least one input judged; distinct: different input multiset.", perCase),
 		Assumptions: decodeAssumptions}
 	vrun.Loop(t, meta, 0, func(c *vrun.Case) vrun.Result {
@@ -157,7 +157,7 @@ func TestC12Mutate(t *testing.T) {
 		r := b.finish(map[string]any{"encoding": encName, "pool_start": len(byEnc[encName]), "pool_added_by_feedback": added})
 		if r.Verdict == vrun.Held {
 			r.Stat("feedback_pool_additions", int64(added))
-			r.Stat("distinct_behaviour_classes", int64(len(novel)))
+			r.Stat("behaviour_classes_summed_over_cases", int64(len(novel)))
 		}
 		return r
 	})
